@@ -297,6 +297,7 @@ def absorbed_put_refused(ctx, prop):
     f = c.methods.get('_do_put')
     if f is None:
         raise AnalysisError('%s: anchor vanished: Container._do_put' % rule)
+    f = f.normalized()          # nested ifs read as one conjunction, guard temporaries inlined
     evname = [p for p in f.params if p != 'self'][0]
     env = {'self._level': 'C', 'self.level': 'C', 'self._capacity': 'C', 'self.capacity': 'C', '%s.amount' % evname: 'eps'}
     temps, count = {}, {}
@@ -346,6 +347,7 @@ def stored_level_tested(ctx, prop):
     f = c.methods.get('_do_put')
     if f is None:
         raise AnalysisError('%s: anchor vanished: Container._do_put' % rule)
+    f = f.normalized()
     temps, count = {}, {}
     for n in walk_local(f.node):
         if isinstance(n, ast.Assign) and len(n.targets) == 1 and isinstance(n.targets[0], ast.Name):
